@@ -1,5 +1,5 @@
 """C13 - test_timer returns Ok(r) only with a usable r >= 1, else a TimerError that holds."""
-from .. import terms as T, prims as P, loops as LP
+from .. import terms as T, sq, prims as P, loops as LP
 from ..harness import (Crate, State, Ref, ArrV, Struct, EnumV, OpaqueV, Anchor, Unsupported, SymbolicLoop, Diverged, symbolic_args)
 from ..evalmir import add_assume
 from . import c14
@@ -50,7 +50,8 @@ def resolve_all(ev, st, t):
 def run(chk, tier):
     crate = Crate("rand_jitter")
     chk.config(crate.config)
-    key = next((k for k in crate.bodies if crate.bodies[k]["def"] == "rand_jitter::JitterRng::<F>::test_timer"), None)
+    tdef = sq.find_method(crate, "rand_jitter::JitterRng::<F>::test_timer", "JitterRng", "test_timer")
+    key = next((k for k in crate.bodies if crate.bodies[k]["def"] == tdef), None)
     if key is None:
         raise Anchor("JitterRng::test_timer not found")
     body = crate.body(key)
@@ -229,7 +230,8 @@ def run(chk, tier):
         okf = all(((127 + l_) // l_) * l_ >= 128 and 1 <= (127 + l_) // l_ <= 128 for l_ in range(5, 65))
         chk.ob("R2", "formula branch|ceil(128/l)*l >= 128 for every l in 5..=64", okf, "", nontrivial=False)
     # ---- R5: set_rounds
-    skey = next((k for k in crate.bodies if crate.bodies[k]["def"] == "rand_jitter::JitterRng::<F>::set_rounds"), None)
+    sdef = sq.find_method(crate, "rand_jitter::JitterRng::<F>::set_rounds", "JitterRng", "set_rounds")
+    skey = next((k for k in crate.bodies if crate.bodies[k]["def"] == sdef), None)
     if skey is None:
         chk.ob("R5", "set_rounds|anchor", False, "set_rounds not found")
     else:
